@@ -1,10 +1,12 @@
 import CJ.Drv.Loop
 import CJ.Drv.Registry
 import CJ.Drv.RegistryX
-/-! Driver for C08: the registry model and its extended histories. -/
+import CJ.Drv.RegistryIndex
+/-! Driver for C08: the registry model, its extended histories, and the string-indexed registry. -/
 open CJ.Drv
 
 def main : IO Unit := runDriver fun
   | "registry" :: args => Registry.handle args
   | "registryx" :: args => RegistryX.handle args
+  | "regidx" :: args => RegistryIndex.handle args
   | _ => none
